@@ -531,7 +531,8 @@ EDGE = [
     "register", "register q", "register q[", "register q[1", "register q 1", "register 1", "REGISTER q[1]", "Register q[1]",
     "let pi 3.14159;register q[2];map a q[0];from x.y usepulses *\nloop 3 { <Rx a pi | Ry q[1] 1.0> ; subcircuit { prepare_all\n measure_all } }",
     "g\n" * 50, "{" * 30 + "g" + "}" * 30, "<{" * 10 + "g" + "}>" * 10, "loop 1 " * 5 + "{g}",
-    "g " + "1" * 400, "g " + "1" * 400 + ".5", "g " + "1" * 4300, "g " + "1" * 4301, "let a -" + "9" * 5000, "g 1." + "1" * 5000, "g 0." + "0" * 400 + "1", "'" + "1" * 300 + "'",
+    "g " + "1" * 400, "g " + "1" * 400 + ".5", "g " + "1" * 4300, "g " + "1" * 4301, "g " + "0" * 4301, "g -" + "1" * 4300, "g +" + "1" * 4301, "g 0" + "1" * 4300,
+    "g a\n  x -" + "1" * 4301 + " $", "g '" + "1" * 5000 + "'", "register q[" + "1" * 4301 + "]", "loop " + "1" * 4301 + " {g}", "let a -" + "9" * 5000, "g 1." + "1" * 5000, "g 0." + "0" * 400 + "1", "'" + "1" * 300 + "'",
 ]
 
 STATS = collections.Counter()  # auxiliary counters (e.g. float comparisons that needed rounding)
